@@ -11,6 +11,10 @@ func Len(v interface{}) int {
 	}
 	rv := reflect.ValueOf(v)
 	if rv.Kind() == reflect.Ptr {
+		if rv.IsNil() && rv.Type().Elem().Kind() == reflect.Array {
+			// as in Go, the length of a nil pointer to an array is the array type's
+			return rv.Type().Elem().Len()
+		}
 		rv = rv.Elem()
 	}
 	switch rv.Kind() {
